@@ -21,7 +21,8 @@ Inductive vop :=
 | VMin (ti : nat) | VMax (ti : nat)
 | VPop (ti : nat) (k : Z) | VPopItem (ti : nat) | VClear (ti : nat)
 | VSetDefault (ti : nat) (k v : Z) | VUpdate (ti : nat) (k v : Z)
-| VSRemove (ti : nat) (k : Z) | VSPop (ti : nat) | VSClear (ti : nat).
+| VSRemove (ti : nat) (k : Z) | VSPop (ti : nat) | VSClear (ti : nat)
+| VDrop (ti : nat).
 
 Definition bz (b : bool) : obs := I (if b then 1 else 0).
 Definition nz (n : nat) : obs := I (Z.of_nat n).
@@ -65,6 +66,7 @@ Definition enc (x : vop) : obs :=
   | VSRemove ti k => L [I 45; nz ti; I k]
   | VSPop ti => L [I 46; nz ti]
   | VSClear ti => L [I 47; nz ti]
+  | VDrop ti => L [I 48; nz ti]
   end.
 
 (* ---------------------------------------------------------------- the reference world *)
@@ -224,6 +226,7 @@ Definition rstep (rw : rworld) (x : vop) : rworld * obs :=
         | [] => (rw, Prelude.E eKey)
         | x :: _ => r_mutate rw ti r (del_sorted (fst x) (r_items r)) (I (fst x))
         end)
+  | VDrop ti => r_with_tree rw ti (fun r => (rw, N))
   end.
 
 Fixpoint rsteps (rw : rworld) (xs : list vop) : list obs :=
@@ -812,6 +815,8 @@ Proof.
       { destruct Hbwf as (_ & Hsz). rewrite Hsz, He. unfold zlen. rewrite Nat2Z.id. lia. }
       cbn [bind]. exists b'. split; [reflexivity|]. split; [|assumption].
       unfold tree_rel, r_set. cbn [r_items r_t r_immut r_inorder]. repeat split; try (apply Hb'); congruence.
+  - (* the handle is dropped *) pose proof (R_tree w rw ti HR) as Ht.
+    destruct (nth_error (w_trees w) ti) as [b|] eqn:Eb, (nth_error (rw_trees rw) ti) as [r|] eqn:Er; try contradiction; auto.
 Qed.
 
 (* ---------------------------------------------------------------- whole histories *)
